@@ -635,7 +635,19 @@ evaluate() const {
           return Result(r1.as_boolean());
 
         } else if (stype->_type == CPPSimpleType::T_int) {
-          return Result(r1.as_integer());
+          int value = r1.as_integer();
+          if (stype->_flags & CPPSimpleType::F_short) {
+            // The value is converted to the 16-bit target type.
+            if (stype->_flags & CPPSimpleType::F_unsigned) {
+              value = (int)(unsigned short)value;
+            } else {
+              value = (int)(short)value;
+            }
+          } else if ((stype->_flags & CPPSimpleType::F_unsigned) && value < 0) {
+            // The converted value does not fit in the int we evaluate in.
+            return Result();
+          }
+          return Result(value);
 
         } else if (stype->_type == CPPSimpleType::T_float ||
                    stype->_type == CPPSimpleType::T_double) {
